@@ -167,7 +167,10 @@ class CFG(object):
             body_ctx = ctx.replace(brk=after, cont=n)
             b_out = self._block(s.body, [(n, 'iter')], body_ctx)
             for (p, lab) in b_out:
-                self._edge(p, n, 'loop')
+                # a dangling branch edge keeps its label: the false edge
+                # of an `if` that ends the body is still a false edge
+                self._edge(p, n, lab if lab in ('true', 'false')
+                           else 'loop')
             if s.orelse:
                 e_out = self._block(s.orelse, [(n, 'exhausted')], ctx)
                 self._connect(e_out, after)
@@ -181,7 +184,8 @@ class CFG(object):
             body_ctx = ctx.replace(brk=after, cont=n)
             b_out = self._block(s.body, [(n, 'true')], body_ctx)
             for (p, lab) in b_out:
-                self._edge(p, n, 'loop')
+                self._edge(p, n, lab if lab in ('true', 'false')
+                           else 'loop')
             const_true = (isinstance(s.test, ast.Constant)
                           and bool(s.test.value))
             if not const_true:
